@@ -103,7 +103,16 @@ func TestC07(t *testing.T) {
 			e = xast.Call("translate", S, U, W)
 			nt = nt || multibyte(u) || multibyte(w) || utf8.RuneCountInString(u) != utf8.RuneCountInString(w) || repeats(u)
 		case "concat":
-			e = xast.Call("concat", S, U, W)
+			// 2-14 arguments in drawn order (an argument-count threshold or a
+			// reordering shows as a different string)
+			pool := []*xast.Expr{S, U, W, xast.Str("<"), xast.Str(""), P, xast.Str("|")}
+			n := rapid.IntRange(2, 14).Draw(t, "concatArgs")
+			var args []*xast.Expr
+			for i := 0; i < n; i++ {
+				args = append(args, pool[rapid.IntRange(0, len(pool)-1).Draw(t, "concatArg")])
+			}
+			e = xast.Call("concat", args...)
+			nt = nt || n > 3
 		case "string-length0", "normalize-space0":
 			e = xast.Path(true, xast.S("child", xast.Name("", "r")), &xast.Step{Call: xast.Call(strings.TrimSuffix(fn, "0"))})
 			if rapid.Bool().Draw(t, "inPredicate") {
